@@ -213,7 +213,7 @@ def run_part(ctx, pairs=None):
         # the three-thread inheritance programs need only one preemption to leak (between the helper
         # thread's creation and its set_swapped_values()); one less keeps the quick tier fast
         b = min(bound, ctx.pick(1, 2)) if pair[0].startswith("inherit-async") else bound
-        viols, st = pysched.explore(_body, _check, traced, b, ctx, max_execs_per_shard=ctx.pick(4000, 200000))
+        viols, st = pysched.explore(_body, _check, traced, b, ctx, max_execs_per_shard=ctx.pick(4000, 200000), budget_s=ctx.pick(60, 70))
         ctx.add_violations(viols)
         total["executions"] += st.executions
         total["steps"] += st.steps
